@@ -26,6 +26,13 @@ QUANTITIES = {
     "cv": ["CV"], "absorbance": ["AU", "mAU"], "permeability": ["LMH/bar", "L/m2/h/bar"], "flux": ["LMH", "L/m2/h", "L/h/m2"],
 }
 ALL_UNITS = sorted({u for us in QUANTITIES.values() for u in us})
+# quantities the project defines itself on top of pint (custom definitions / own comparability table): tags get them more often
+CUSTOM_UNITS = sorted(u for q in ("percentage", "cv", "absorbance", "permeability", "flux", "conductivity", "area") for u in QUANTITIES[q])
+# names that exist in some registry of the engine (engine command enum, internal command classes, system tags, run states)
+# but are not P-code instructions a method can run
+REGISTRY_NAMES = ["Start", "Start", "Start", "Start: 1", "Unpause", "Unhold", "Unpause: 1", "Run Counter: 2", "Block Time", "System State: Running",
+                  "Method Status", "Clock", "Running", "Paused", "Cancel", "Force", "Inject", "Base Unit: s", "Reset run counter",
+                  "Noop", "Noop: 2", "Run Time: 1 s", "Mark Tag: x", "Connection Status"]
 UNIT_Q = {u: q for q, us in QUANTITIES.items() for u in us}
 TAG_POOL = ["Flow rate", "TT01", "pH", "UV 280", "Cond", "Pressure 1", "Level", "Feed volume", "Speed", "X", "Area", "P1", "Mass", "FT01"]
 CMD_POOL = ["Flow", "Reset", "Valve", "Pump speed", "Area", "Zero UV", "Inlet", "Collect", "Set", "PU01"]
@@ -225,7 +232,11 @@ CAUSES = [
     ("invalid-command-argument", re.compile(r"Invalid arguments? for command|Failed to initialize arguments|Invalid argument '|"
                                             r"has invalid argument|Argument '.*' for command .* is not valid|Argument must be", re.I)),
     ("incomparable-units", re.compile(r"incompatible units|Cannot compare values with|not comparable|Custom comparison of non-pint units|"
-                                      r"Units should be the same", re.I)),
+                                      r"Units should be the same|"
+                                      # a conversion between the two units of a condition that fails while the condition is evaluated
+                                      # (the same message from a Simulate line is a conversion, not a condition: counted as other)
+                                      r"Error evaluating condition: [^\n]*?(Invalid unit|Cannot convert between units|is not defined in the unit registry|"
+                                      r"DimensionalityError|UndefinedUnitError)", re.I)),
 ]
 
 
@@ -256,7 +267,8 @@ def uod_specs(draw):
     names = draw(st.lists(st.sampled_from(TAG_POOL), min_size=1, max_size=5, unique=True))
     tags = []
     for n in names:
-        unit = draw(st.sampled_from(ALL_UNITS)) if draw(st.integers(0, 4)) > 0 else None
+        r = draw(st.integers(0, 9))
+        unit = None if r < 2 else draw(st.sampled_from(CUSTOM_UNITS)) if r < 5 else draw(st.sampled_from(ALL_UNITS))
         tags.append({"name": n, "unit": unit})
     cnames = draw(st.lists(st.sampled_from(CMD_POOL), min_size=1, max_size=4, unique=True))
     cmds = []
@@ -497,7 +509,13 @@ def methods(draw, spec, max_lines: int):
         val = draw(cond_value(tunit, near and what == "value"))
         emit(depth, "Simulate: %s = %s" % (nm, val), "simulate", near)
 
+    def registry_name(depth):
+        emit(depth, draw(st.sampled_from(REGISTRY_NAMES)), "registry-name", True)
+
     def internal(depth, near):
+        if near and draw(st.integers(0, 2)) == 0:
+            registry_name(depth)
+            return
         if not near:
             t = draw(st.sampled_from(["Wait: 0.2s", "Wait: 0.1 s", "Pause: 0.2s", "Hold: 0.2 s", "Base: s", "Base: min", "Base: h",
                                       "Run counter: 3", "Increment run counter", "Mark: a", "Info: hello", "Notify: n", "Batch: b1"]))
@@ -514,8 +532,10 @@ def methods(draw, spec, max_lines: int):
         near = n_near_left > 0 and draw(st.integers(0, 2)) == 0
         if near:
             n_near_left -= 1
-        r = draw(st.integers(0, 11))
-        if r < 4:
+        r = draw(st.integers(0, 12))
+        if r == 12:
+            registry_name(0)
+        elif r < 4:
             condition(0, near)
         elif r < 8 and cmds:
             command(0, near)
@@ -528,4 +548,16 @@ def methods(draw, spec, max_lines: int):
             for _ in range(draw(st.integers(1, 2))):
                 simple(1)
             emit(1, "End block", "end-block", False)
+    # tags whose quantity has several units get, in half of the methods, one extra condition with the limit written in another
+    # unit of the same quantity (every ordered pair of a family is reached that way)
+    for tname, tunit in tags:
+        if tunit is not None and len(QUANTITIES[UNIT_Q[tunit]]) > 1 and draw(st.booleans()):
+            other = draw(st.sampled_from([u for u in QUANTITIES[UNIT_Q[tunit]] if u != tunit]))
+            emit(0, "%s: %s %s %s %s" % (draw(st.sampled_from(["Watch", "Alarm"])), tname, draw(st.sampled_from(OPS)),
+                                         draw(st.sampled_from(NUMS[:6])), other), "cross-unit-condition", False)
+            emit(1, "Mark: x%d" % len(lines), "mark", False)
+    # every hand-written regex command gets, in half of the methods, one extra line with text around a matching core
+    for c in cmds:
+        if c["arg"] is not None and c["arg"]["kind"] == "regex" and draw(st.booleans()):
+            emit(0, c["name"] + ": " + draw(cmd_arg(c["arg"], True)), "uod-command:regex", True)
     return lines
